@@ -916,9 +916,9 @@ func SexpToGoStructs(
 					//vv("target returning = '%#v'", target)
 					return target, nil
 				}
-				//vv("have reflect.Map: target has type = '%T', value='%#v'; targTyp='%v' targKind='%v' targElemTyp='%v' targElemKind='%v' mapElemTyp='%v' mapElemKind='%v' mapKeyTyp='%v' mapKeyKind='%v'", target, target, targTyp, targKind, targElemTyp, targElemKind, mapElemTyp, mapElemKind, mapKeyTyp, mapKeyKind)
+				//vv("have reflect.Map: target has type = '%T', value='%s'; targTyp='%v' targKind='%v' targElemTyp='%v' targElemKind='%v' mapElemTyp='%v' mapElemKind='%v' mapKeyTyp='%v' mapKeyKind='%v'", target, target, targTyp, targKind, targElemTyp, targElemKind, mapElemTyp, mapElemKind, mapKeyTyp, mapKeyKind)
 			}
-			panic(fmt.Sprintf("not done here yet, target has type = '%T', value='%#v'; targTyp='%v' targKind='%v' targElemTyp='%v' targElemKind='%v'", target, target, targTyp, targKind, targElemTyp, targElemKind))
+			panic(fmt.Sprintf("not done here yet, target has type = '%T', value='%s'; targTyp='%v' targKind='%v' targElemTyp='%v' targElemKind='%v'", target, showForErr(target), targTyp, targKind, targElemTyp, targElemKind))
 
 			// TODO: don't try to translate into a Go struct,
 			// but instead... what? just a map[string]interface{}
@@ -1020,7 +1020,7 @@ func SexpToGoStructs(
 					recordKey = k.name
 				default:
 					fmt.Printf(" skipping field '%#v' which we don't know how to lookup.", pair.Head)
-					panic(fmt.Sprintf("unknown fields disallowed: we didn't recognize '%#v'", pair.Head))
+					panic(fmt.Sprintf("unknown fields disallowed: we didn't recognize '%s'", showForErr(pair.Head)))
 					continue
 				}
 				// We've got to match pair.Head to
@@ -1039,7 +1039,7 @@ func SexpToGoStructs(
 					//vv("upperKey = '%v' from recordKey = '%v'; found=%v; det='%#v'", upperKey, recordKey, found, det)
 					if !found {
 						fmt.Printf(" skipping field '%s' in this hash/which we could not find in the JsonTagMap", recordKey)
-						panic(fmt.Sprintf("unknown field '%s' not allowed; could not find in the JsonTagMap. Fieldnames are case sensitive. src.JstonTagMap: '%#v'", recordKey, src.JsonTagMap))
+						panic(fmt.Sprintf("unknown field '%s' not allowed; could not find in the JsonTagMap. Fieldnames are case sensitive.", recordKey))
 						continue
 					}
 				}
